@@ -377,5 +377,6 @@ func rulesC20(c *Ctx) {
 	c.Floor("C20.overflow", nInc, 4, "sequence-number increments in the scheduler")
 	rulesC20Round2(c, ix)
 	c20Round3(c, ix)
+	c20Round4(c)
 	rulesC20Round2b(c)
 }
